@@ -122,7 +122,7 @@ def groups():
     for fn in ('getCurrentBreak', 'setSteppingMode', 'isSteppingModeEnabled', 'isDone', 'getActivations', 'getEnabledBreakPoints'):
         gs.append(Group('dbg_' + fn, DBG_PROPS + (['C07'] if fn in ('getCurrentBreak', 'getActivations') else []),
                         f'Theo::VM::{fn} (VM/src/vm.cpp)', 'c_' + fn, _dbg_build(fn), timeout=600))
-    gs.append(Group('dbg_reset', DBG_PROPS + ['C19'], 'Theo::VM::reset (VM/src/vm.cpp)', 'c_reset', _dbg_build('reset', redirect=True),
+    gs.append(Group('dbg_reset', DBG_PROPS + ['C19', 'C07', 'C16'], 'Theo::VM::reset (VM/src/vm.cpp)', 'c_reset', _dbg_build('reset', redirect=True),
                     timeout=600, note='callee clearBreakpoints replaced by its contract c_clearBreakpoints'))
     BND = 'BOUNDED in the number of table entries only: potential_breaks and enabled_breakpoints hold at most %d entries (constant-size arrays); site lists (loop contracts), program, data and stack sizes stay symbolic and unbounded'
     BNDU = ('BOUNDED stand-in: at most 2 locations in potential_breaks, at most 2 enabled locations, at most 2 sites per location, '
